@@ -48,7 +48,8 @@ def gen_case(rng, k):
     for ent in table:
         if r2.random() < 0.25:
             ent["criteria_kind"] = r2.choice(["len0", "boolfalse"])      # explicit criteria objects that are falsy as Python objects
-    return {"driver": drv, "natoms": n, "positions": [[rng.randint(0, 60) / 8 for _ in range(3)] for _ in range(n)], "seed": rng.randint(1, 2 ** 31),
+    reann = {"reannounce_at": r2.randint(1, 6)} if r2.random() < 0.3 else {}
+    return reann | {"driver": drv, "natoms": n, "positions": [[rng.randint(0, 60) / 8 for _ in range(3)] for _ in range(n)], "seed": rng.randint(1, 2 ** 31),
             "max_cycles": rng.choice([1, 2, 3]), "steps": rng.randint(4, 9), "verdicts": [rng.random() < 0.6 for _ in range(80)], "table": table}
 
 
@@ -100,6 +101,7 @@ def run(res: C.Result):
         for ti, t in enumerate(r["trials"]):
             dist["trials"] += 1
             oid, kid = name2[t["name"]]
+            kid = t.get("kid", kid)
             ev = [e for e in log[t["start"]:t["end"]] if e[0] in ("call", "evaluate", "atoms_changed", "cell_changed")]
             dist["history"][str(t["hist"][1])] += 1
             snaps = r["snaps"][t["snap_start"]:t["snap_end"]]
